@@ -52,7 +52,11 @@ IDS = ["heroku/java", "a", "a.b/c-d", "x/y/z", "0", "samples/ruby"]
 VERSIONS = ["0.0.1", "1.2.3", "10.20.30", "0.0.0", "18446744073709551615.0.1"]
 SBOM = ["application/vnd.cyclonedx+json", "application/spdx+json", "application/vnd.syft+json"]
 STR = ["", "plain", 'q"uote', "nl\nline", "café", "日本語", "with space", "back\\slash", "#hash", "x" * 120]
-URIS = [".", "./", "../x", "/abs", "docker://docker.io/heroku/procfile-cnb:2.0.1", "libcnb:heroku/nodejs", "urn:cnb:registry:heroku/nodejs@1.2.3"]
+URIS = [".", "./", "../x", "/abs", "docker://docker.io/heroku/procfile-cnb:2.0.1", "libcnb:heroku/nodejs", "urn:cnb:registry:heroku/nodejs@1.2.3",
+        # spellings a URI normaliser would change (host case, dot segments, percent-encoding of unreserved characters, default port, empty path);
+        # the scheme stays lower-case and the path non-empty here (upper-case schemes and authority-only URIs are C14's listed findings)
+        "docker://Docker.IO/Heroku/Procfile-CNB:2.0.1", "https://example.com/a/../b/./c.cnb", "https://EXAMPLE.com/%7Euser/%41.cnb", "https://example.com:443/", "file:///A/./b//c",
+        "a/./b/../c", "./x/", "x//y"]
 
 
 def sval(r, path):
